@@ -234,3 +234,37 @@ def numeric_diff_check(e, x, point, eps=1e-6):
   f = lambda t, dx: float(z3.simplify(z3.substitute(t, *[(k, z3.RealVal(repr(float(point[k]) + (dx if k.eq(x) else 0.0)))) for k in point])).as_fraction())
   d = float(z3.simplify(z3.substitute(diff(e, x), *sub)).as_fraction())
   return abs(d - (f(e, eps) - f(e, -eps)) / (2 * eps))
+
+
+def reads_inshape(kts, *terms):
+  """0 <= index < dim for every read Select(initial array of a kernel argument, ...) that occurs in the given (reference / goal)
+  terms: a functional claim is made for states in which the cells the REFERENCE reads exist (a mutated kernel that no longer reads
+  a cell would otherwise let the solver shrink the array below it, which no real launch can do)."""
+  if not isinstance(kts, (list, tuple)):
+    kts = [kts]
+  arrays = {}
+  for kt in kts:
+    for v in kt.args.values():
+      if isinstance(v, core.ArrRef) and v.cell.mode == "array":
+        for a in getattr(v.cell, "a0", v.cell.a):
+          arrays[a.get_id()] = v.cell
+  out, seen = [], set()
+
+  def walk(t):
+    if t.get_id() in seen:
+      return
+    seen.add(t.get_id())
+    if not z3.is_app(t):
+      return
+    if t.decl().kind() == z3.Z3_OP_SELECT and t.arg(0).get_id() in arrays:
+      cell = arrays[t.arg(0).get_id()]
+      for d_, s_ in enumerate(cell.shape):
+        i = t.arg(1 + d_)
+        out.append(z3.And(i >= 0, i < s_))
+    for c in t.children():
+      walk(c)
+
+  for t in terms:
+    if z3.is_expr(t):
+      walk(t)
+  return z3.And(*out) if out else z3.BoolVal(True)
